@@ -195,7 +195,7 @@ class Prop(PropBase):
     ID = "C27"
     tiers = {
         "quick": {"runs": 360, "selftest_runs": 4},
-        "thorough": {"runs": 7000, "selftest_runs": 32},
+        "thorough": {"runs": 28000, "selftest_runs": 32},
     }
     rule = ("one run = one (entries, max_alloc, max_free) configuration with argument validation, driven for 80-260 "
             "cycles by a seeded phase plan (random / fill / drain / ping-pong / refuse / flush / idle); distinct = distinct "
